@@ -35,13 +35,14 @@ type RewardShadow struct {
 	Received sdk.Coins // total forwarded to the pool (mod -> pool)
 	Paid     sdk.Coins // total paid by the pool
 	Stranded sdk.Coins
+	OverRounder map[string]*big.Rat // the part of Overpaid explained by claims that used a rounded-up reported value
 	OverRound map[string]*big.Rat // the part of Overpaid that lies within the 18-digit resolution (index round-up)
 	Overpaid map[string]*big.Rat // per reward denom: what claims of value-changed positions were paid beyond their exact entitlement
 }
 
 func (r *Runner) rewardShadow() *RewardShadow {
 	if r.Rw == nil {
-		r.Rw = &RewardShadow{R: r, E: map[PosKey]map[string]*big.Rat{}, Q: map[PosKey]map[string]*big.Rat{}, N: map[PosKey]int{}, Vmin: map[PosKey]*big.Rat{}, Vmax: map[PosKey]*big.Rat{}, Taint: map[PosKey]string{}, lastIdx: -1, Received: sdk.NewCoins(), Paid: sdk.NewCoins(), Stranded: sdk.NewCoins(), Overpaid: map[string]*big.Rat{}, OverRound: map[string]*big.Rat{}}
+		r.Rw = &RewardShadow{R: r, E: map[PosKey]map[string]*big.Rat{}, Q: map[PosKey]map[string]*big.Rat{}, N: map[PosKey]int{}, Vmin: map[PosKey]*big.Rat{}, Vmax: map[PosKey]*big.Rat{}, Taint: map[PosKey]string{}, lastIdx: -1, Received: sdk.NewCoins(), Paid: sdk.NewCoins(), Stranded: sdk.NewCoins(), Overpaid: map[string]*big.Rat{}, OverRound: map[string]*big.Rat{}, OverRounder: map[string]*big.Rat{}}
 	}
 	return r.Rw
 }
@@ -135,6 +136,21 @@ func (rs *RewardShadow) noteOverpaid(pk PosKey, paid sdk.Coins, v *big.Rat) {
 			lim.Add(lim, ratI64(1))
 			if over.Cmp(lim) <= 0 {
 				rs.OverRound[c.Denom].Add(rs.OverRound[c.Denom], over)
+			} else if v.Sign() > 0 {
+				// rounder-overclaim: the claim used the reported value floor(v + 0.01) > v
+				rp := new(big.Rat).Add(v, big.NewRat(1, 100))
+				rpi := new(big.Rat).SetInt(ratFloor(rp))
+				if rpi.Cmp(v) > 0 {
+					rel := new(big.Rat).Quo(new(big.Rat).Sub(rpi, v), v)
+					lim2 := new(big.Rat).Mul(ratInt(c.Amount), rel)
+					lim2.Add(lim2, lim)
+					if over.Cmp(lim2) <= 0 {
+						if rs.OverRounder[c.Denom] == nil {
+							rs.OverRounder[c.Denom] = new(big.Rat)
+						}
+						rs.OverRounder[c.Denom].Add(rs.OverRounder[c.Denom], over)
+					}
+				}
 			}
 		}
 	}
@@ -892,9 +908,13 @@ func (m *MonC12) classify(s *Snap, msg string, branchPaid ...sdk.Coins) (string,
 	if inflated && excess.Sign() > 0 && covered.Cmp(sumE) >= 0 && shortfall.Cmp(new(big.Rat).Add(new(big.Rat).Add(excess, res), rounderBound)) <= 0 {
 		return "slash-inflation", fmt.Sprintf("pool holds %s%s, exact entitlements at receipt sum to %s, but index x current token value sums to %s because a slash inflated position values after the rewards accrued (shortfall of this claim %s)", s.BalOf(w.PoolAddr, denom), denom, ratStr(sumE), ratStr(sumQ), ratStr(shortfall))
 	}
-	if maxRel.Sign() > 0 {
+	if orr := m.rs.OverRounder[denom]; maxRel.Sign() > 0 || (orr != nil && orr.Sign() > 0) {
 		bound := new(big.Rat).Mul(flows, maxRel)
 		bound.Add(bound, ratI64(int64(len(s.DelOrder))+1))
+		bound.Add(bound, res)
+		if orr != nil {
+			bound.Add(bound, orr) // such overpayments already made earlier left the pool that much short
+		}
 		if shortfall.Cmp(bound) <= 0 {
 			return "rounder-overclaim", fmt.Sprintf("pool of %s short by %s: a position worth just under a whole number of tokens claims with its reported value (exact value + 0.01 rounded down), up to %s relatively more than the index was computed for", denom, ratStr(shortfall), maxRel.FloatString(6))
 		}
